@@ -356,6 +356,13 @@ PROPS["C06"]["race"] = True
 PROPS["C06"]["rule"] += (" extra (race-detector binary): 12 rounds of the txcache-evict and txcache-limits stress phases; after all goroutines have finished, further insertions must leave "
                          "the pool within threshold + the transaction just added (eviction keeps running), per-sender count limit probed at every instant.")
 
+# C16 quantifies over sequences; a seeded change (Get refilling the cache after a lock gap) showed that concurrent callers can
+# break "the cache never serves a value different from what the persister holds" for good: same stress engine, storage-unit phase
+PROPS["C16"]["extras"] = PROPS["C16"]["extras"] + [{"component": "stress", "race": True, "timeout": 600}]
+PROPS["C16"]["race"] = True
+PROPS["C16"]["rule"] += (" extra (race-detector binary, beyond the property's quantifier which is over sequences): 12 rounds x 25 epochs of 6 goroutines doing Put/Remove/Get/Has/ClearCache on 4 keys of a "
+                         "storage unit (LRU cache of 2-6 entries over a memorydb whose reads yield the processor); at every instant with nothing in flight the cache holds no value that differs from the "
+                         "persister's and Get/Has answer like the persister.")
 PROPS["C16"]["coq_props"] = ["C16", "C16b"]
 PROPS["C16"]["assumptions"] = [a for a in PROPS["C16"]["assumptions"] if not a.startswith("LRU / SizeLRU / FIFOSharded satisfy cacher_laws")] + [
     "cacher_laws are PROVED for the models of the sized LRU, the plain LRU, the lruCache wrapper and the FIFO sharded cache (Props/C16b.v); those models are tied to the Go caches by the C15/C20 checks"]
